@@ -907,10 +907,6 @@ package go_clipper2
 //@   props C03
 //@   panicfree
 
-//@ func getAdjacentLocation
-//@   props C03
-//@   panicfree
-
 //@ func getAvgUnitVector
 //@   props C03
 //@   panicfree
@@ -928,10 +924,6 @@ package go_clipper2
 //@   panicfree
 
 //@ func hasVertOverlap
-//@   props C03
-//@   panicfree
-
-//@ func headingClockwise
 //@   props C03
 //@   panicfree
 
@@ -1429,3 +1421,47 @@ package go_clipper2
 //@   requires absI(v) <= 4611686018427387904.0
 //@   ensures [nearest] absI(result - v) <= 0.5
 //@   ensures [integral] isIntegral(result)
+
+// ---------------------------------------------------------------------------------
+// C03 / C06: index safety of the rectangle clipper's state machine
+// ---------------------------------------------------------------------------------
+
+//@ spec validLoc(l Location) bool = 0 <= l && l <= 4
+//@ spec sideLoc(l Location) bool = 0 <= l && l <= 3
+
+//@ func getAdjacentLocation
+//@   props C06 C03
+//@   requires sideLoc(loc)
+//@   ensures [adjacent] sideLoc(result) && result == ite(isClockwise, ite(loc == 3, 0, loc+1), ite(loc == 0, 3, loc-1))
+
+//@ func headingClockwise
+//@   props C06 C03
+//@   requires validLoc(prev) && validLoc(curr)
+//@   ensures [clockwise] result == ((prev == 0 && curr == 1) || (prev == 1 && curr == 2) || (prev == 2 && curr == 3) || (prev == 3 && curr == 0) || (prev == 4 && curr == 1))
+
+//@ func getIntersection
+//@   props C06 C11 C03
+//@   requires len(rectPath) == 4 && validLoc(*loc)
+//@   requires dom(p, 29) && dom(p2, 29) && domPath(rectPath, 29)
+//@   requires rectPath[0].X == rectPath[3].X && rectPath[1].X == rectPath[2].X && rectPath[0].Y == rectPath[1].Y && rectPath[2].Y == rectPath[3].Y
+//@   ensures [loc-is-a-side-when-found] result1 ==> sideLoc(*loc)
+//@   ensures [loc-kept-when-not-found] !result1 ==> *loc == old(*loc)
+
+//@ func RectClip64.add
+//@   props C06 C11 C03
+//@   nosafety
+//@   assumes forall(k, 0, len(r.results), r.results[k] != nil)
+//@   ensures [returns-a-node] result != nil && result.pt == pt
+//@   ensures [registered] len(r.results) >= 1 && len(r.results) >= old(len(r.results))
+
+//@ func RectClip64.getNextLocation
+//@   props C06 C11 C03
+//@   requires validLoc(*loc) && 0 <= *i && *i <= highI + 1 && highI == len(path) - 1
+//@   loop 0 invariant [idx] old(*i) <= *i && *i <= highI + 1
+//@   loop 1 invariant [idx] old(*i) <= *i && *i <= highI + 1
+//@   loop 2 invariant [idx] old(*i) <= *i && *i <= highI + 1
+//@   loop 3 invariant [idx] old(*i) <= *i && *i <= highI + 1
+//@   loop 4 invariant [idx] old(*i) <= *i && *i <= highI + 1 && validLoc(*loc)
+//@   ensures [advances] old(*i) <= *i && *i <= highI + 1
+//@   ensures [valid-location] validLoc(*loc)
+//@   ensures [left-the-previous-side] (*i <= highI && old(*loc) != 4) ==> *loc != old(*loc)
